@@ -6,6 +6,8 @@ package vhttp
 import (
 	"io"
 	"net/http"
+	"net/url"
+	"time"
 
 	mc "github.com/whawty/auth/internal/verifmc"
 )
@@ -32,6 +34,46 @@ type World struct {
 	Master   Master
 	Stall    bool // the round trip never completes
 	Requests int
+	open     map[*Transport]int // connections pinned by response bodies that were neither read to EOF nor closed
+}
+
+var ProxyFromEnvironment = http.ProxyFromEnvironment
+
+// Transport mirrors the fields of http.Transport a client configuration typically sets. Only
+// MaxConnsPerHost has a modelled effect: a round trip needs a connection, a connection stays
+// in use until the response body has been read to its end or closed, and with the limit
+// reached Do blocks (the limit is scaled like channel capacities, see mc.CapLimit).
+type Transport struct {
+	Proxy                  func(*Request) (*url.URL, error)
+	MaxConnsPerHost        int
+	MaxIdleConns           int
+	MaxIdleConnsPerHost    int
+	IdleConnTimeout        time.Duration
+	ResponseHeaderTimeout  time.Duration
+	TLSHandshakeTimeout    time.Duration
+	ExpectContinueTimeout  time.Duration
+	DisableKeepAlives      bool
+	DisableCompression     bool
+	ForceAttemptHTTP2      bool
+	MaxResponseHeaderBytes int64
+}
+
+type pinnedBody struct {
+	io.ReadCloser
+	release func()
+}
+
+func (b *pinnedBody) Read(p []byte) (int, error) {
+	n, err := b.ReadCloser.Read(p)
+	if err == io.EOF {
+		b.release()
+	}
+	return n, err
+}
+
+func (b *pinnedBody) Close() error {
+	b.release()
+	return b.ReadCloser.Close()
 }
 
 func GetWorld() *World {
@@ -53,12 +95,40 @@ func WorldOf(s *mc.Sched) *World {
 }
 
 type Client struct {
-	Timeout int64
+	Transport *Transport
+	Timeout   time.Duration
 }
 
 func (c *Client) Do(req *Request) (*Response, error) {
 	w := GetWorld()
 	w.Requests++
-	mc.Ext("vhttp.Do", "http round trip", func() bool { return !w.Stall && w.Master != nil }, func() {})
-	return w.Master(req)
+	tr := c.Transport
+	limit := 0
+	if tr != nil && tr.MaxConnsPerHost > 0 {
+		limit = mc.ScaleCap(tr.MaxConnsPerHost)
+		if w.open == nil {
+			w.open = map[*Transport]int{}
+		}
+	}
+	mc.Ext("vhttp.Do", "http round trip", func() bool { return !w.Stall && w.Master != nil && (limit == 0 || w.open[tr] < limit) }, func() {
+		if limit > 0 {
+			w.open[tr]++
+		}
+	})
+	resp, err := w.Master(req)
+	if limit > 0 {
+		released := false
+		release := func() {
+			if !released {
+				released = true
+				w.open[tr]--
+			}
+		}
+		if err != nil || resp == nil || resp.Body == nil {
+			release()
+		} else {
+			resp.Body = &pinnedBody{ReadCloser: resp.Body, release: release}
+		}
+	}
+	return resp, err
 }
